@@ -367,6 +367,9 @@ fn run_history(idx: usize, cx: &mut Ctx, script: Option<Vec<Op>>, il: u8, ik: u8
     let mut log: Vec<serde_json::Value> = vec![];
     let mut have_index = false;
     let scripted = script.is_some();
+    // "big" scripted histories: hundreds of index entries so that the index B-tree splits its root
+    let script_len = script.as_ref().map(|s| s.len()).unwrap_or(0);
+    let big = script_len > 100;
     let early_index = cx.r.chance(1, 2);
     let index_at = 2 + cx.r.below(6) as usize;
     let mut script = script.unwrap_or_default().into_iter();
@@ -449,6 +452,9 @@ fn run_history(idx: usize, cx: &mut Ctx, script: Option<Vec<Op>>, il: u8, ik: u8
             }
         };
         *cx.hist.entry(format!("op:{}", format!("{:?}", op).split(['(', ' ']).next().unwrap())).or_insert(0) += 1;
+        if big && i == 1 {
+            *cx.hist.entry("big-history(index root split)".into()).or_insert(0) += 1;
+        }
         // ---- run it on both databases, update the mirror as the model would
         let mut stmt_log = json!(format!("{:?}", op));
         let mut model_op: Option<String> = None;
@@ -663,11 +669,20 @@ fn run_history(idx: usize, cx: &mut Ctx, script: Option<Vec<Op>>, il: u8, ik: u8
         }
 
         // ---- observations: raw index lookups and queries
-        let nq = if scripted { 2 } else if have_index { 1 + cx.r.below(3) as usize } else { cx.r.below(2) as usize };
+        let nq = if big {
+            if i == script_len { 80 } else if i + 50 > script_len { 2 } else { 0 }
+        } else if scripted { 2 } else if have_index { 1 + cx.r.below(3) as usize } else { cx.r.below(2) as usize };
         for _ in 0..nq {
             // value: mostly one that some node holds (or its numeric twin)
             let held: Vec<Val> = m.nodes.iter().filter_map(|x| x.props.get(&ik).cloned()).collect();
             let mut v = if !held.is_empty() && cx.r.chance(3, 4) { cx.r.pick(&held).clone() } else { gen_val(cx.r, true) };
+            if big && cx.r.chance(1, 2) {
+                // the values written by the late updates and duplicated by the late creates
+                let late: Vec<Val> = held.iter().filter(|x| matches!(x, Val::Int(i) if *i >= 1000)).cloned().collect();
+                if !late.is_empty() {
+                    v = cx.r.pick(&late).clone();
+                }
+            }
             if cx.r.chance(1, 6) {
                 v = match v {
                     Val::Int(i) => Val::Float((i as f64).to_bits()),
@@ -862,6 +877,33 @@ fn main() {
         let (il, ik, script, nops) = if idx < corpus.len() {
             let (il, ik, s) = corpus[idx].clone();
             (il, ik, Some(s), 0)
+        } else if idx % 25 == 7 {
+            // big history: the index B-tree root splits (an 8 KiB leaf holds ~255 integer entries, deleted
+            // cells included) while an UPDATE of an existing node is applied; then more updates and creates of
+            // duplicate values, a reopen, and a sweep of lookups
+            let n = 190 + cx.r.below(60) as usize;
+            let early = cx.r.chance(1, 2);
+            let mut s = vec![];
+            if early { s.push(Op::CreateIndex); }
+            for j in 0..n {
+                s.push(Op::Create(vec![0], vec![(1, Val::Int((j % 50) as i64)), (2, Val::Int(j as i64))]));
+            }
+            if !early { s.push(Op::CreateIndex); }
+            let u = 70 + cx.r.below(30) as usize;
+            for j in 0..u {
+                if j % 9 == 4 {
+                    s.push(Op::PropsMany(Some(0), vec![(2, Val::Int(-(j as i64)), false)])); // not the indexed key
+                } else {
+                    s.push(Op::Props(j as u32, vec![(1, Val::Int(1000 + j as i64), false)]));
+                }
+            }
+            for j in 0..40 {
+                s.push(Op::Create(vec![0], vec![(1, Val::Int(1000 + j as i64))]));
+                if j % 10 == 3 { s.push(Op::Props((100 + j) as u32, vec![(1, Val::Int(1000 + j as i64), false)])); }
+            }
+            s.push(Op::Reopen);
+            s.push(Op::Create(vec![0], vec![(1, Val::Int(1001))]));
+            (0, 1, Some(s), 0)
         } else {
             let il = if cx.r.chance(3, 4) { 0 } else { cx.r.below(3) as u8 };
             let ik = if cx.r.chance(3, 4) { 1 } else { cx.r.below(3) as u8 };
